@@ -10,6 +10,95 @@ From ErgV Require Import gen.Sigs CoreErg.Syntax CoreErg.Sem Typing.Types Typing
 Import ListNotations.
 Open Scope Z_scope.
 
+(** ** the restricted table only removes typings: what is typed with [strict = true] has the same type without *)
+Lemma binop_res_lax : forall o a b t, binop_res true o a b = Some t -> binop_res false o a b = Some t.
+Proof.
+  intros o a b t H. unfold binop_res in *.
+  destruct (is_scalar a && is_scalar b && pow_ok true o a b) eqn:E; try discriminate.
+  apply andb_true_iff in E. destruct E as [E _]. rewrite E. exact H.
+Qed.
+
+Lemma bin_ty_lax : forall op ta tb t, bin_ty true op ta tb = Some t -> bin_ty false op ta tb = Some t.
+Proof.
+  intros op ta tb t H. unfold bin_ty in *.
+  assert (Hg : match class_of ta, class_of tb with
+               | Some ca, Some cb => binop_res true (arith_code op) ca cb | _, _ => None end = Some t ->
+               match class_of ta, class_of tb with
+               | Some ca, Some cb => binop_res false (arith_code op) ca cb | _, _ => None end = Some t).
+  { destruct (class_of ta); auto. destruct (class_of tb); auto. apply binop_res_lax. }
+  destruct ta; auto; destruct tb; auto.
+Qed.
+
+Lemma infer_lax : forall FS G e t, infer true FS G e = Some t -> infer false FS G e = Some t.
+Proof.
+  intros FS G. induction e using tm_ind'; intros t Hi.
+  - exact Hi.
+  - exact Hi.
+  - cbn [infer] in *. destruct (infer true FS G e) as [ta|] eqn:Ea; try discriminate. rewrite (IHe _ eq_refl). exact Hi.
+  - cbn [infer] in *. destruct (infer true FS G e1) as [ta|] eqn:Ea; try discriminate.
+    destruct (infer true FS G e2) as [tb|] eqn:Eb; try discriminate.
+    rewrite (IHe1 _ eq_refl), (IHe2 _ eq_refl). apply bin_ty_lax. exact Hi.
+  - cbn [infer] in *. destruct (infer true FS G e1) as [ta|] eqn:Ea; try discriminate.
+    destruct (infer true FS G e2) as [tb|] eqn:Eb; try discriminate.
+    rewrite (IHe1 _ eq_refl), (IHe2 _ eq_refl). exact Hi.
+  - cbn [infer] in *. destruct (infer true FS G e1) as [ta|] eqn:Ea; try discriminate.
+    destruct (infer true FS G e2) as [tb|] eqn:Eb; try discriminate.
+    rewrite (IHe1 _ eq_refl), (IHe2 _ eq_refl). exact Hi.
+  - rewrite infer_XList in *.
+    assert (Hl : forall ts, infers true FS G es = Some ts -> infers false FS G es = Some ts).
+    { clear Hi. induction H as [|x r Hx Hr IH]; intros ts Hs; cbn [infers] in *; auto.
+      destruct (infer true FS G x) as [tx|] eqn:Ex; try discriminate.
+      destruct (infers true FS G r) as [tr|] eqn:Er; try discriminate.
+      rewrite (Hx _ eq_refl), (IH _ eq_refl). exact Hs. }
+    destruct (infers true FS G es) as [ts|] eqn:Es; try discriminate. rewrite (Hl _ eq_refl). exact Hi.
+  - cbn [infer] in *. destruct (infer true FS G e1) as [ta|] eqn:Ea; try discriminate.
+    destruct (infer true FS G e2) as [tb|] eqn:Eb; try discriminate.
+    rewrite (IHe1 _ eq_refl), (IHe2 _ eq_refl). exact Hi.
+  - cbn [infer] in *. destruct (infer true FS G e1) as [tc|] eqn:Ec; try discriminate.
+    destruct (infer true FS G e2) as [ta|] eqn:Ea; try discriminate.
+    destruct (infer true FS G e3) as [tb|] eqn:Eb; try discriminate.
+    rewrite (IHe1 _ eq_refl), (IHe2 _ eq_refl), (IHe3 _ eq_refl). exact Hi.
+  - rewrite infer_XCall in *.
+    assert (Hl : forall ts, infers true FS G args = Some ts -> infers false FS G args = Some ts).
+    { clear Hi. induction H as [|x r Hx Hr IH]; intros ts Hs; cbn [infers] in *; auto.
+      destruct (infer true FS G x) as [tx|] eqn:Ex; try discriminate.
+      destruct (infers true FS G r) as [tr|] eqn:Er; try discriminate.
+      rewrite (Hx _ eq_refl), (IH _ eq_refl). exact Hs. }
+    destruct (infers true FS G args) as [ts|] eqn:Es; try discriminate. rewrite (Hl _ eq_refl). exact Hi.
+  - rewrite infer_XMeth in *.
+    assert (Hl : forall ts, infers true FS G args = Some ts -> infers false FS G args = Some ts).
+    { clear Hi. induction H as [|x r Hx Hr IH]; intros ts Hs; cbn [infers] in *; auto.
+      destruct (infer true FS G x) as [tx|] eqn:Ex; try discriminate.
+      destruct (infers true FS G r) as [tr|] eqn:Er; try discriminate.
+      rewrite (Hx _ eq_refl), (IH _ eq_refl). exact Hs. }
+    destruct (infer true FS G e) as [tr|] eqn:Er; try discriminate.
+    destruct (infers true FS G args) as [ts|] eqn:Es; try discriminate.
+    rewrite (IHe _ eq_refl), (Hl _ eq_refl). exact Hi.
+Qed.
+
+Lemma check_defaults_lax : forall FS G ps, check_defaults true FS G ps = true -> check_defaults false FS G ps = true.
+Proof.
+  induction ps as [|[[x t] [d|]] r IH]; intros H; cbn [check_defaults] in *; auto.
+  destruct (infer true FS G d) as [td|] eqn:E; try discriminate. rewrite (infer_lax _ _ _ _ E).
+  apply andb_true_iff in H. destruct H as [H1 H2]. rewrite H1, (IH H2). reflexivity.
+Qed.
+
+Lemma check_locals_lax : forall FS ls G Gb, check_locals true FS G ls = Some Gb -> check_locals false FS G ls = Some Gb.
+Proof.
+  induction ls as [|[x e] r IH]; intros G Gb H; cbn [check_locals] in *; auto.
+  destruct (infer true FS G e) as [t|] eqn:E; try discriminate. rewrite (infer_lax _ _ _ _ E). auto.
+Qed.
+
+Lemma fun_ret_lax : forall FS G ps ret locals res r,
+  fun_ret true FS G ps ret locals res = Some r -> fun_ret false FS G ps ret locals res = Some r.
+Proof.
+  intros FS G ps ret locals res r H. unfold fun_ret in *.
+  destruct (check_defaults true FS G ps) eqn:Ed; try discriminate. rewrite (check_defaults_lax _ _ _ Ed).
+  destruct (check_locals true FS (param_tys ps ++ G) locals) as [Gb|] eqn:El; try discriminate.
+  rewrite (check_locals_lax _ _ _ _ El).
+  destruct (infer true FS Gb res) as [tr|] eqn:Er; try discriminate. rewrite (infer_lax _ _ _ _ Er). exact H.
+Qed.
+
 (** ** environments *)
 Definition env_ok (G : tenv) (en : env) : Prop :=
   forall x t, lookup_t x G = Some t -> exists v, lookup x en = Some v /\ has_ty v t = true.
@@ -71,27 +160,27 @@ Section EvalSound.
   Hypothesis Hcall : callf_ok FS callf.
 
   Definition tm_sound (e : tm) : Prop :=
-    forall G en t, env_ok G en -> infer true FS G e = Some t -> res_ok (eval true callf FS G en e) t.
+    forall G en t, env_ok G en -> infer true FS G e = Some t -> res_ok (eval callf FS G en e) t.
 
   Lemma evals_sound : forall es, Forall tm_sound es ->
-    forall G en ts, env_ok G en -> infers true FS G es = Some ts -> vals_ok (evals true callf FS G en es) ts.
+    forall G en ts, env_ok G en -> infers true FS G es = Some ts -> vals_ok (evals callf FS G en es) ts.
   Proof.
     induction 1 as [|x r Hx Hr IH]; intros G en ts He Hi; cbn [infers] in Hi.
     - inversion Hi; subst. cbn. constructor.
     - destruct (infer true FS G x) as [t|] eqn:Ex; try discriminate.
       destruct (infers true FS G r) as [tr|] eqn:Er; try discriminate. inversion Hi; subst.
       cbn [evals]. pose proof (Hx G en t He Ex) as H1.
-      destruct (eval true callf FS G en x) as [v|e|]; cbn [rbind vals_ok]; auto.
+      destruct (eval callf FS G en x) as [v|e|]; cbn [rbind vals_ok]; auto.
       pose proof (IH G en tr He Er) as H2.
-      destruct (evals true callf FS G en r) as [vs|e|]; cbn [rbind vals_ok]; auto.
+      destruct (evals callf FS G en r) as [vs|e|]; cbn [rbind vals_ok]; auto.
   Qed.
 
-  Lemma evals_length : forall G en es vs, evals true callf FS G en es = R_ok vs -> length vs = length es.
+  Lemma evals_length : forall G en es vs, evals callf FS G en es = R_ok vs -> length vs = length es.
   Proof.
     induction es as [|x r IH]; intros vs H; cbn [evals] in H.
     - inversion H; reflexivity.
-    - destruct (eval true callf FS G en x); cbn [rbind] in H; try discriminate.
-      destruct (evals true callf FS G en r) as [vr| |]; cbn [rbind] in H; try discriminate.
+    - destruct (eval callf FS G en x); cbn [rbind] in H; try discriminate.
+      destruct (evals callf FS G en r) as [vr| |]; cbn [rbind] in H; try discriminate.
       inversion H; subst. cbn. f_equal. auto.
   Qed.
 
@@ -101,28 +190,28 @@ Section EvalSound.
     - (* literal *) cbn in Hi. inversion Hi; subst. cbn [eval res_ok]. apply has_ty_lit.
     - (* variable *) cbn [infer] in Hi. destruct (He _ _ Hi) as [v [Hl Hv]]. cbn [eval]. rewrite Hl. exact Hv.
     - (* unary *)
-      cbn [eval]. rewrite Hi. cbn [infer] in Hi.
+      cbn [eval]. rewrite (infer_lax _ _ _ _ Hi). cbn [infer] in Hi.
       destruct (infer true FS G e) as [ta|] eqn:Ea; try discriminate.
       pose proof (IHe G en ta He Ea) as H1.
-      destruct (eval true callf FS G en e) as [va|er|]; cbn [rbind res_ok]; auto.
+      destruct (eval callf FS G en e) as [va|er|]; cbn [rbind res_ok]; auto.
       apply wrap_res. eapply un_sound; eauto.
     - (* binary *)
-      cbn [eval]. rewrite Hi. cbn [infer] in Hi.
+      cbn [eval]. rewrite (infer_lax _ _ _ _ Hi). cbn [infer] in Hi.
       destruct (infer true FS G e1) as [ta|] eqn:Ea; try discriminate.
       destruct (infer true FS G e2) as [tb|] eqn:Eb; try discriminate.
       pose proof (IHe1 G en ta He Ea) as H1.
-      destruct (eval true callf FS G en e1) as [va|er|]; cbn [rbind res_ok]; auto.
+      destruct (eval callf FS G en e1) as [va|er|]; cbn [rbind res_ok]; auto.
       pose proof (IHe2 G en tb He Eb) as H2.
-      destruct (eval true callf FS G en e2) as [vb|er|]; cbn [rbind res_ok]; auto.
+      destruct (eval callf FS G en e2) as [vb|er|]; cbn [rbind res_ok]; auto.
       apply wrap_res. eapply bin_sound; eauto.
     - (* comparison *)
       cbn [eval]. cbn [infer] in Hi.
       destruct (infer true FS G e1) as [ta|] eqn:Ea; try discriminate.
       destruct (infer true FS G e2) as [tb|] eqn:Eb; try discriminate.
       pose proof (IHe1 G en ta He Ea) as H1.
-      destruct (eval true callf FS G en e1) as [va|er|]; cbn [rbind res_ok]; auto.
+      destruct (eval callf FS G en e1) as [va|er|]; cbn [rbind res_ok]; auto.
       pose proof (IHe2 G en tb He Eb) as H2.
-      destruct (eval true callf FS G en e2) as [vb|er|]; cbn [rbind res_ok]; auto.
+      destruct (eval callf FS G en e2) as [vb|er|]; cbn [rbind res_ok]; auto.
       eapply cmp_sound; eauto.
     - (* and / or *)
       cbn [eval]. cbn [infer] in Hi.
@@ -132,7 +221,7 @@ Section EvalSound.
       apply andb_true_iff in Es. destruct Es as [S1 S2].
       pose proof (res_ok_sub _ _ _ (IHe1 G en ta He Ea) S1) as H1.
       pose proof (res_ok_sub _ _ _ (IHe2 G en tb He Eb) S2) as H2.
-      destruct (eval true callf FS G en e1) as [va|er|]; cbn [rbind]; auto.
+      destruct (eval callf FS G en e1) as [va|er|]; cbn [rbind]; auto.
       destruct k; destruct (truthy va); auto.
     - (* list literal *)
       rewrite eval_XList. rewrite infer_XList in Hi.
@@ -140,7 +229,7 @@ Section EvalSound.
       destruct ts as [|t0 ts]; try discriminate.
       destruct (join_all t0 ts) as [tj|] eqn:J; try discriminate. inversion Hi; subst.
       pose proof (evals_sound es H G en _ He Ei) as Hv.
-      destruct (evals true callf FS G en es) as [vs|er|] eqn:Ev; cbn [rbind res_ok vals_ok] in *; auto.
+      destruct (evals callf FS G en es) as [vs|er|] eqn:Ev; cbn [rbind res_ok vals_ok] in *; auto.
       cbn [has_ty]. apply andb_true_iff. split.
       + apply forallb_forall. intros v Hin.
         assert (Hx : exists t', In t' (t0 :: ts) /\ has_ty v t' = true).
@@ -154,7 +243,7 @@ Section EvalSound.
       destruct (infer true FS G e1) as [ta|] eqn:Ea; try discriminate.
       destruct (infer true FS G e2) as [ti|] eqn:Eb; try discriminate.
       pose proof (IHe1 G en ta He Ea) as H1.
-      destruct (eval true callf FS G en e1) as [va|er|]; cbn [rbind res_ok]; auto.
+      destruct (eval callf FS G en e1) as [va|er|]; cbn [rbind res_ok]; auto.
       assert (Hk : exists k, e2 = XLit (LNat k)).
       { unfold index_ty in Hi. destruct e2; try discriminate. destruct l; try discriminate. eauto. }
       destruct Hk as [k ->]. cbn [eval rbind lit_value].
@@ -166,33 +255,33 @@ Section EvalSound.
       destruct (infer true FS G e3) as [tb|] eqn:Eb; try discriminate.
       destruct (sub tc T_Bool); try discriminate.
       pose proof (IHe1 G en tc He Ec) as H1.
-      destruct (eval true callf FS G en e1) as [vc|er|]; cbn [rbind res_ok]; auto.
+      destruct (eval callf FS G en e1) as [vc|er|]; cbn [rbind res_ok]; auto.
       destruct (truthy vc).
       + pose proof (IHe2 G en ta He Ea) as H2.
-        destruct (eval true callf FS G en e2) as [v|er|]; cbn [res_ok] in *; auto. eapply join_sound_l; eauto.
+        destruct (eval callf FS G en e2) as [v|er|]; cbn [res_ok] in *; auto. eapply join_sound_l; eauto.
       + pose proof (IHe3 G en tb He Eb) as H3.
-        destruct (eval true callf FS G en e3) as [v|er|]; cbn [res_ok] in *; auto. eapply join_sound_r; eauto.
+        destruct (eval callf FS G en e3) as [v|er|]; cbn [res_ok] in *; auto. eapply join_sound_r; eauto.
     - (* call *)
-      rewrite eval_XCall. rewrite Hi. rewrite infer_XCall in Hi.
+      rewrite eval_XCall. rewrite (infer_lax _ _ _ _ Hi). rewrite infer_XCall in Hi.
       destruct (infers true FS G args) as [ts|] eqn:Ei; try discriminate.
       destruct (lookup_t f FS) as [[ps ret]|] eqn:Ef; try discriminate.
       destruct (check_args ps ts) eqn:Ec; try discriminate. inversion Hi; subst.
       pose proof (evals_sound args H G en _ He Ei) as Hv.
-      destruct (evals true callf FS G en args) as [vs|er|]; cbn [rbind res_ok vals_ok] in *; auto.
+      destruct (evals callf FS G en args) as [vs|er|]; cbn [rbind res_ok vals_ok] in *; auto.
       apply wrap_res. eapply Hcall; eauto.
     - (* method *)
-      rewrite eval_XMeth. rewrite Hi. rewrite infer_XMeth in Hi.
+      rewrite eval_XMeth. rewrite (infer_lax _ _ _ _ Hi). rewrite infer_XMeth in Hi.
       destruct (infer true FS G e) as [tr|] eqn:Er; try discriminate.
       destruct (infers true FS G args) as [ts|] eqn:Ei; try discriminate.
       pose proof (IHe G en tr He Er) as H1.
-      destruct (eval true callf FS G en e) as [vr|er|]; cbn [rbind res_ok]; auto.
+      destruct (eval callf FS G en e) as [vr|er|]; cbn [rbind res_ok]; auto.
       pose proof (evals_sound args H G en _ He Ei) as Hv.
-      destruct (evals true callf FS G en args) as [vs|er|]; cbn [rbind res_ok vals_ok] in *; auto.
+      destruct (evals callf FS G en args) as [vs|er|]; cbn [rbind res_ok vals_ok] in *; auto.
       apply wrap_res. eapply meth_sound; eauto.
   Qed.
 
   Lemma locals_sound : forall ls G en Gb, env_ok G en -> check_locals true FS G ls = Some Gb ->
-    match run_locals true callf FS G en ls with
+    match run_locals callf FS G en ls with
     | R_ok (G', en') => G' = Gb /\ env_ok Gb en'
     | R_err e => type_error e = false /\ e <> EStatic
     | R_fuel => True
@@ -200,9 +289,9 @@ Section EvalSound.
   Proof.
     induction ls as [|[x e] r IH]; intros G en Gb He Hc; cbn [check_locals run_locals] in *.
     - inversion Hc; subst. auto.
-    - destruct (infer true FS G e) as [t|] eqn:Ei; try discriminate.
+    - destruct (infer true FS G e) as [t|] eqn:Ei; try discriminate. rewrite (infer_lax _ _ _ _ Ei).
       pose proof (eval_sound e G en t He Ei) as H1.
-      destruct (eval true callf FS G en e) as [v|er|]; cbn [rbind res_ok] in *; auto.
+      destruct (eval callf FS G en e) as [v|er|]; cbn [rbind res_ok] in *; auto.
       apply IH; auto. apply env_ok_cons; auto.
   Qed.
 End EvalSound.
@@ -250,7 +339,7 @@ Proof.
       cbn [vparam_tys map fst snd]. constructor; auto. eapply sub_sound; eauto.
 Qed.
 
-Lemma callf_ok_n : forall n F, F_ok F -> callf_ok (sigs F) (callf_n true n F).
+Lemma callf_ok_n : forall n F, F_ok F -> callf_ok (sigs F) (callf_n n F).
 Proof.
   induction n as [|n IH]; intros F HF f ps ret vs ts Hl Hc Hv; [exact I|].
   cbn [callf_n].
@@ -260,7 +349,7 @@ Proof.
   destruct (bind_args_ok _ _ _ Hc Hv Hdef) as [penv [Hb Ha]]. rewrite Hb.
   pose proof (IH Fr HFr) as Hcall.
   pose proof (locals_sound _ _ Hcall (fd_locals d) _ (penv ++ fd_env d) Gb (env_ok_app _ _ _ _ Ha Henv) Hloc) as HL.
-  destruct (run_locals true (callf_n true n Fr) (sigs Fr) (vparam_tys (fd_ps d) ++ fd_tenv d) (penv ++ fd_env d) (fd_locals d))
+  destruct (run_locals (callf_n n Fr) (sigs Fr) (vparam_tys (fd_ps d) ++ fd_tenv d) (penv ++ fd_env d) (fd_locals d))
     as [[G' en']|er|]; cbn [rbind res_ok fst snd]; auto.
   destruct HL as [-> He'].
   pose proof (eval_sound _ _ Hcall (fd_res d) Gb en' tr He' Hres) as HR.
@@ -280,20 +369,20 @@ Definition sres_ok (c' : cenv) (r : sres) : Prop :=
 Section ExecSound.
   Variable fuel : nat.
 
-  Lemma ev_sound : forall s e t, st_ok s -> infer true (sigs (s_F s)) (s_G s) e = Some t -> res_ok (ev true fuel s e) t.
+  Lemma ev_sound : forall s e t, st_ok s -> infer true (sigs (s_F s)) (s_G s) e = Some t -> res_ok (ev fuel s e) t.
   Proof.
     intros s e t [HF He] Hi. unfold ev. eapply eval_sound; eauto. apply callf_ok_n; auto.
   Qed.
 
-  Lemma evs_sound : forall s es ts, st_ok s -> infers true (sigs (s_F s)) (s_G s) es = Some ts -> vals_ok (evs true fuel s es) ts.
+  Lemma evs_sound : forall s es ts, st_ok s -> infers true (sigs (s_F s)) (s_G s) es = Some ts -> vals_ok (evs fuel s es) ts.
   Proof.
     intros s es ts [HF He] Hi. unfold evs.
-    apply (evals_sound (callf_n true fuel (s_F s)) (sigs (s_F s)) es); auto.
+    apply (evals_sound (callf_n fuel (s_F s)) (sigs (s_F s)) es); auto.
     apply Forall_forall. intros x _. apply eval_sound. apply callf_ok_n; auto.
   Qed.
 
   Lemma defaults_sound : forall s ps, st_ok s -> check_defaults true (sigs (s_F s)) (s_G s) ps = true ->
-    match eval_defaults true fuel s ps with
+    match eval_defaults fuel s ps with
     | R_ok ds => vparam_tys ds = param_tys ps /\
                  map (fun p : Z * ety * option value => (snd (fst p), is_some (snd p))) ds = param_sig ps /\
                  (forall x t v, In (x, t, Some v) ds -> has_ty v t = true)
@@ -306,13 +395,13 @@ Section ExecSound.
     - destruct (infer true (sigs (s_F s)) (s_G s) d) as [td|] eqn:Ed; try discriminate.
       apply andb_true_iff in Hc. destruct Hc as [Hsub Hc].
       pose proof (ev_sound s d td Hs Ed) as H1.
-      destruct (ev true fuel s d) as [v|e|]; cbn [rbind res_ok] in *; auto.
-      specialize (IH Hc). destruct (eval_defaults true fuel s r) as [ds|e|]; cbn [rbind]; auto.
+      destruct (ev fuel s d) as [v|e|]; cbn [rbind res_ok] in *; auto.
+      specialize (IH Hc). destruct (eval_defaults fuel s r) as [ds|e|]; cbn [rbind]; auto.
       destruct IH as [I1 [I2 I3]]. repeat split.
       + cbn [vparam_tys param_tys map fst snd]. f_equal. exact I1.
       + cbn [param_sig map fst snd is_some]. f_equal. exact I2.
       + intros y ty w [Heq|Hin]; [inversion Heq; subst; eapply sub_sound; eauto|eauto].
-    - specialize (IH Hc). destruct (eval_defaults true fuel s r) as [ds|e|]; cbn [rbind]; auto.
+    - specialize (IH Hc). destruct (eval_defaults fuel s r) as [ds|e|]; cbn [rbind]; auto.
       destruct IH as [I1 [I2 I3]]. repeat split.
       + cbn [vparam_tys param_tys map fst snd]. f_equal. exact I1.
       + cbn [param_sig map fst snd is_some]. f_equal. exact I2.
@@ -320,24 +409,24 @@ Section ExecSound.
   Qed.
 
   Definition st_sound (x : st) : Prop :=
-    forall s c', st_ok s -> check_st true (sigs (s_F s), s_G s) x = Some c' -> sres_ok c' (exec true fuel x s).
+    forall s c', st_ok s -> check_st true (sigs (s_F s), s_G s) x = Some c' -> sres_ok c' (exec fuel x s).
 
   (* a block: the final environment is the checker's *)
   Lemma block_sound : forall ss, Forall st_sound ss ->
-    forall s c', st_ok s -> check_block true (sigs (s_F s), s_G s) ss = Some c' -> sres_ok c' (exec_block true fuel ss s).
+    forall s c', st_ok s -> check_block true (sigs (s_F s), s_G s) ss = Some c' -> sres_ok c' (exec_block fuel ss s).
   Proof.
     induction 1 as [|x r Hx Hr IH]; intros s c' Hs Hc; cbn [check_block exec_block] in *.
     - inversion Hc; subst. split; auto.
     - destruct (check_st true (sigs (s_F s), s_G s) x) as [c1|] eqn:E1; try discriminate.
       pose proof (Hx s c1 Hs E1) as H1.
-      destruct (exec true fuel x s) as [s1|e o|o]; cbn [sres_ok] in *; auto.
+      destruct (exec fuel x s) as [s1|e o|o]; cbn [sres_ok] in *; auto.
       destruct H1 as [Hs1 Hc1]. subst c1. apply IH; auto.
   Qed.
 
   (* a block in a scope of its own *)
   Lemma scoped_block_sound : forall ss s0 s, Forall st_sound ss -> st_ok s0 -> st_ok s ->
     is_some (check_block true (sigs (s_F s), s_G s) ss) = true ->
-    match exec_block true fuel ss s with
+    match exec_block fuel ss s with
     | S_ok s' => st_ok (restore s0 s')
     | S_err e _ => type_error e = false /\ e <> EStatic
     | S_fuel _ => True
@@ -346,7 +435,7 @@ Section ExecSound.
     intros ss s0 s Hss H0 Hs Hc.
     destruct (check_block true (sigs (s_F s), s_G s) ss) as [c1|] eqn:E; try discriminate.
     pose proof (block_sound ss Hss s c1 Hs E) as H1.
-    destruct (exec_block true fuel ss s) as [s1|e o|o]; cbn [sres_ok] in *; auto.
+    destruct (exec_block fuel ss s) as [s1|e o|o]; cbn [sres_ok] in *; auto.
   Qed.
 
   Lemma exec_sound : forall x, st_sound x.
@@ -354,33 +443,33 @@ Section ExecSound.
     induction x using st_ind'; intros s c' Hs Hc.
     - (* definition *)
       cbn [check_st fst snd] in Hc. cbn [exec].
-      destruct (infer true (sigs (s_F s)) (s_G s) e) as [t|] eqn:Ei; try discriminate.
+      destruct (infer true (sigs (s_F s)) (s_G s) e) as [t|] eqn:Ei; try discriminate. rewrite (infer_lax _ _ _ _ Ei).
       destruct (match ann with Some a => sub t a | None => true end); try discriminate. inversion Hc; subst.
       pose proof (ev_sound s e t Hs Ei) as H1.
-      destruct (ev true fuel s e) as [v|er|]; cbn [with_val sres_ok res_ok] in *; auto.
+      destruct (ev fuel s e) as [v|er|]; cbn [with_val sres_ok res_ok] in *; auto.
       destruct Hs as [HF He]. split; [split|]; cbn; auto. apply env_ok_cons; auto.
     - (* print *)
       cbn [check_st fst snd] in Hc. cbn [exec].
       destruct (infers true (sigs (s_F s)) (s_G s) es) as [ts|] eqn:Ei; try discriminate. inversion Hc; subst.
       pose proof (evs_sound s es ts Hs Ei) as H1.
-      destruct (evs true fuel s es) as [vs|er|]; cbn [sres_ok vals_ok] in *; auto.
+      destruct (evs fuel s es) as [vs|er|]; cbn [sres_ok vals_ok] in *; auto.
     - (* assert *)
       cbn [check_st fst snd] in Hc. cbn [exec].
       destruct (infer true (sigs (s_F s)) (s_G s) e) as [t|] eqn:Ei; try discriminate.
       destruct (sub t T_Bool); try discriminate. inversion Hc; subst.
       pose proof (ev_sound s e t Hs Ei) as H1.
-      destruct (ev true fuel s e) as [v|er|]; cbn [with_val sres_ok res_ok] in *; auto.
+      destruct (ev fuel s e) as [v|er|]; cbn [with_val sres_ok res_ok] in *; auto.
       destruct (truthy v); cbn; auto. split; auto; discriminate.
     - (* function definition *)
       cbn [check_st fst snd] in Hc. cbn [exec].
       destruct (fun_ret true (sigs (s_F s)) (s_G s) ps ret locals res) as [r|] eqn:Er; try discriminate.
-      inversion Hc; subst. clear Hc.
+      rewrite (fun_ret_lax _ _ _ _ _ _ _ Er). inversion Hc; subst. clear Hc.
       unfold fun_ret in Er.
       destruct (check_defaults true (sigs (s_F s)) (s_G s) ps) eqn:Ed; try discriminate.
       destruct (check_locals true (sigs (s_F s)) (param_tys ps ++ s_G s) locals) as [Gb|] eqn:El; try discriminate.
       destruct (infer true (sigs (s_F s)) Gb res) as [tr|] eqn:Et; try discriminate.
       pose proof (defaults_sound s ps Hs Ed) as HD.
-      destruct (eval_defaults true fuel s ps) as [ds|er|]; cbn [sres_ok]; auto.
+      destruct (eval_defaults fuel s ps) as [ds|er|]; cbn [sres_ok]; auto.
       destruct HD as [D1 [D2 D3]]. destruct Hs as [HF He].
       split; [split|].
       + cbn [s_F F_ok]. split; auto. split; [exact He|]. split; [exact D3|].
@@ -397,26 +486,26 @@ Section ExecSound.
                 && is_some (check_block true (sigs (s_F s), s_G s) el)) eqn:Eb; try discriminate.
       inversion Hc; subst. apply andb_true_iff in Eb. destruct Eb as [Eb B2]. apply andb_true_iff in Eb. destruct Eb as [_ B1].
       pose proof (ev_sound s c tc Hs Ei) as H1.
-      destruct (ev true fuel s c) as [v|er|]; cbn [with_val sres_ok res_ok] in *; auto.
+      destruct (ev fuel s c) as [v|er|]; cbn [with_val sres_ok res_ok] in *; auto.
       destruct (truthy v).
       + pose proof (scoped_block_sound th s s H Hs Hs B1) as HB.
-        destruct (exec_block true fuel th s); cbn [sres_ok]; auto.
+        destruct (exec_block fuel th s); cbn [sres_ok]; auto.
       + pose proof (scoped_block_sound el s s H0 Hs Hs B2) as HB.
-        destruct (exec_block true fuel el s); cbn [sres_ok]; auto.
+        destruct (exec_block fuel el s); cbn [sres_ok]; auto.
     - (* for! *)
       rewrite check_st_TFor in Hc. cbn [fst snd] in Hc. rewrite exec_TFor.
       destruct (infer true (sigs (s_F s)) (s_G s) it) as [ti|] eqn:Ei; try discriminate.
-      destruct ti as [| | | | | | | |t n]; try discriminate.
+      destruct ti as [| | | | | | | |t n]; try discriminate. rewrite (infer_lax _ _ _ _ Ei).
       destruct (is_some (check_block true (sigs (s_F s), (x, t) :: s_G s) body)) eqn:Eb; try discriminate.
       inversion Hc; subst. clear Hc.
       pose proof (ev_sound s it _ Hs Ei) as H1.
-      destruct (ev true fuel s it) as [v|er|]; cbn [with_val sres_ok res_ok] in *; auto.
+      destruct (ev fuel s it) as [v|er|]; cbn [with_val sres_ok res_ok] in *; auto.
       cbn [has_ty] in H1. destruct v as [z|b0|fb|s0| |items|tl|c1 c2 c3 c4]; try discriminate.
       apply andb_true_iff in H1. destruct H1 as [Hall _]. rewrite forallb_forall in Hall.
       (* the loop keeps the state shape: generalise over the current state *)
       assert (Hloop : forall items s1, (forall i, In i items -> has_ty i t = true) -> st_ok s1 ->
                 sigs (s_F s1) = sigs (s_F s) -> s_G s1 = s_G s ->
-                sres_ok (sigs (s_F s), s_G s) (for_loop (exec_block true fuel body) x t items s1)).
+                sres_ok (sigs (s_F s), s_G s) (for_loop (exec_block fuel body) x t items s1)).
       { clear Hall items. induction items as [|i r IH]; intros s1 Hi Hs1 EF EG; cbn [for_loop].
         - split; auto. rewrite EF, EG. reflexivity.
         - set (s2 := mkSt (s_F s1) ((x, t) :: s_G s1) ((x, i) :: s_en s1) (s_out s1)).
@@ -425,13 +514,13 @@ Section ExecSound.
           assert (Hc2 : is_some (check_block true (sigs (s_F s2), s_G s2) body) = true).
           { cbn [s2 s_F s_G]. rewrite EF, EG. exact Eb. }
           pose proof (scoped_block_sound body s1 s2 H Hs1 Hs2 Hc2) as HB.
-          destruct (exec_block true fuel body s2) as [s3|e o|o]; cbn [sres_ok]; auto.
+          destruct (exec_block fuel body s2) as [s3|e o|o]; cbn [sres_ok]; auto.
           apply IH; auto. intros j Hj. apply Hi. right. auto. }
       apply Hloop; auto.
   Qed.
 
   Lemma exec_block_sound : forall ss s c', st_ok s -> check_block true (sigs (s_F s), s_G s) ss = Some c' ->
-    sres_ok c' (exec_block true fuel ss s).
+    sres_ok c' (exec_block fuel ss s).
   Proof. intros ss. apply block_sound. apply Forall_forall. intros x _. apply exec_sound. Qed.
 End ExecSound.
 
@@ -448,7 +537,7 @@ Proof.
   intros fuel p. unfold run_prog, typecheck, check_prog.
   destruct (check_block true ([], []) p) as [c'|] eqn:Ec; cbn [is_some]; [|exact I].
   pose proof (exec_block_sound fuel p init_state c' init_ok Ec) as H.
-  destruct (exec_block true fuel p init_state); cbn [snd sres_ok] in *; auto.
+  destruct (exec_block fuel p init_state); cbn [snd sres_ok] in *; auto.
 Qed.
 
 (* the final bindings have the types the checker assigned *)
@@ -459,6 +548,11 @@ Proof.
   intros fuel p s FS G Hc Hr. unfold run_state, typecheck in Hr. rewrite Hc in Hr. cbn [is_some] in Hr.
   unfold check_prog in Hc.
   pose proof (exec_block_sound fuel p init_state _ init_ok Hc) as H.
-  destruct (exec_block true fuel p init_state) as [s'| |]; try discriminate. inversion Hr; subst.
+  destruct (exec_block fuel p init_state) as [s'| |]; try discriminate. inversion Hr; subst.
   cbn [sres_ok] in H. destruct H as [[HF He] Heq]. inversion Heq; subst. auto.
 Qed.
+
+(* the two acceptance gates run the same program the same way *)
+Lemma run_prog_gate : forall fuel p, typecheck false p = true -> typecheck true p = true ->
+  run_prog false fuel p = run_prog true fuel p.
+Proof. intros fuel p H1 H2. unfold run_prog. rewrite H1, H2. reflexivity. Qed.
